@@ -389,7 +389,7 @@ theorem mem_qpsOf {s : Store} (hi : Inv s) {root : Nat} {k : Nat × Nat} :
 
 theorem walkDoubles_unfold (fuel root : Nat) (s : Store) :
     walkDoubles (fuel + 1) root s =
-      (if root + 1 ≥ W32 then throw .overflow
+      (if root + 1 ≥ W32 then throw .panic
       else do
         let s1 ← walkLoop1 (walkDoubles fuel) (pqsOf s root) s
         let s2 ← walkLoop2 (walkDoubles fuel) (qpsOf s root) s1
